@@ -424,6 +424,15 @@ def grow_then_rest(old=2, new=4, timeout=0.05):
               ["reuse", dict(max_workers=new)], ["sleep", timeout / 5], ["probe"], shutdown(True)])
 
 
+def grow_slow_start(old=1, new=2, timeout=0.05, slow=1.0):
+    """Growing resize of an idle pool with a finite idle timeout on a machine where
+    Process.start() returns late (much later than the idle timeout): the fresh worker is up,
+    idle and past its timeout while the parent has not yet recorded it; then ordinary work."""
+    return P(f"grow-slow-start-{old}to{new}", pool("reusable", old, timeout, slow_start=slow),
+             [NEW] + [sub(f"a{i}", "ok", i) for i in range(old)] + [WAIT,
+              ["reuse", dict(max_workers=new)], sub("b", "ok", 7), ["result", "b"], ["probe"], shutdown(True)])
+
+
 def saturate(mw=2, extra=1, timeout=None, kind="plain", cpu=2):
     keys = [f"g{i}" for i in range(mw + extra)]
     ops = [NEW] + [sub(k, "gate") for k in keys] + [["expect_inside", mw]]
